@@ -76,6 +76,24 @@ impl Device {
         device
     }
 
+    /// Build a device on top of a scripted endpoint (verification only).
+    #[cfg(cameleon_verif)]
+    pub fn verif_new(
+        usb: std::sync::Arc<dyn super::verif::VerifUsb>,
+        ctrl_iface_info: ControlIfaceInfo,
+        event_iface_info: Option<ReceiveIfaceInfo>,
+        stream_iface_info: Option<ReceiveIfaceInfo>,
+        device_info: DeviceInfo,
+    ) -> Self {
+        Self {
+            device: LibUsbDevice(Some(usb)),
+            ctrl_iface_info,
+            event_iface_info,
+            stream_iface_info,
+            device_info,
+        }
+    }
+
     //TODO: We need logger.
     fn log_name(&self) -> String {
         format!(
@@ -193,6 +211,12 @@ cfg_if::cfg_if! {
 
         fn get_device(device:RusbDevice) -> LibUsbDevice {
             LibUsbDevice::new(device)
+        }
+    } else if #[cfg(cameleon_verif)] {
+        pub(super) use super::verif::{LibUsbDevice, LibUsbDeviceHandle};
+
+        fn get_device(_device: RusbDevice) -> LibUsbDevice {
+            LibUsbDevice(None)
         }
     } else {
         pub(super) type LibUsbDevice = RusbDevice;
